@@ -220,6 +220,18 @@ def run(ctx):
             if dec != ls:
                 t.failed("decode(encode(lines)) != lines", lines=ls, encoded=enc, decoded=dec)
                 break
+            # the decoded list is the caller's: changing it does not change what the same text decodes to next time
+            try:
+                dec.append("changed by the caller")
+                del dec[0]
+                again = real.parse_multiline_as_lines(enc)
+            except Exception as e:
+                t.failed("decoding the same text a second time raised %r" % (e,), lines=ls)
+                break
+            if again != ls:
+                t.failed("decoding the same text again, after the caller changed the first result, gives other lines", lines=ls,
+                         encoded=enc, decoded_again=again)
+                break
         if t.fail:
             break
     rounds = 1500 if ctx.tier == "quick" else 20000
@@ -247,6 +259,31 @@ def run(ctx):
         except Exception as e:
             t.failed("building a document raised %r" % (e,))
             break
+        # an assignment the paragraph refuses (an empty line inside the value) leaves the document as it was
+        if rng.random() < 0.3:
+            fps = [p for p in cp.all_paragraphs() if isinstance(p, real.FilesParagraph)]
+            if fps:
+                try:
+                    before = cp.dump()
+                    fp = rng.choice(fps)
+                    try:
+                        if rng.random() < 0.5:
+                            fp.copyright = "2020 A\n\n2021 B"
+                        else:
+                            fp.comment = "first\n\nsecond"
+                        refused = False
+                    except ValueError:
+                        refused = True
+                    after = cp.dump()
+                except Exception as e:
+                    t.failed("a refused assignment raised %r" % (e,))
+                    break
+                if refused and after != before:
+                    t.failed("an assignment that was refused with ValueError changed the document", before=before, after=after)
+                    break
+                if not refused:
+                    t.failed("a value with an empty line was accepted into a copyright paragraph", after=after)
+                    break
         try:
             text = cp.dump()
             with warnings.catch_warnings():
